@@ -246,6 +246,10 @@ pub struct WorldSpec {
     /// source entities created through the shared resource on recycled indices, saved before maintain
     #[serde(default)]
     pub deferred_src: bool,
+    /// the source's marker allocator has a history: a marked helper entity (lowest id) is deleted
+    /// after the first real mark, world and allocator are maintained, then marking continues
+    #[serde(default)]
+    pub src_history: bool,
 }
 
 /// What an entity looks like, described through marker ids only.
@@ -328,9 +332,33 @@ where
             src.write_storage::<Link2>().insert(*e, Link2 { to: es[spec.link2[i] - 1], weight: 7 + i as u32 }).unwrap();
         }
     }
+    let mut helper: Option<Entity> = None;
+    if spec.src_history {
+        let h = src.create_entity().build();
+        let mut alloc = src.write_resource::<M::Allocator>();
+        let mut st = src.write_storage::<M>();
+        if !matches!(alloc.mark(h, &mut st), Some((_, true))) {
+            return Err("mark: marking the helper entity failed".into());
+        }
+        helper = Some(h);
+    }
     // mark in descending index order so that marker ids and indices disagree
     for (i, e) in es.iter().enumerate().rev() {
         if spec.marked & (1 << i) != 0 {
+            if let Some(h) = helper {
+                if src.read_storage::<M>().count() >= 2 {
+                    // one real mark exists: the helper (holding the lowest id) goes away
+                    src.delete_entity(h).map_err(|_| "helper deletion failed".to_string())?;
+                    src.maintain();
+                    {
+                        let mut alloc = src.write_resource::<M::Allocator>();
+                        let ents = src.entities();
+                        let stg = src.read_storage::<M>();
+                        alloc.maintain(&ents, &stg);
+                    }
+                    helper = None;
+                }
+            }
             let mut alloc = src.write_resource::<M::Allocator>();
             let mut st = src.write_storage::<M>();
             if spec.explicit_ids {
@@ -350,6 +378,14 @@ where
                 }
             }
         }
+    }
+    if let Some(h) = helper {
+        src.delete_entity(h).map_err(|_| "helper deletion failed".to_string())?;
+        src.maintain();
+        let mut alloc = src.write_resource::<M::Allocator>();
+        let ents = src.entities();
+        let stg = src.read_storage::<M>();
+        alloc.maintain(&ents, &stg);
     }
     // expected transfer set: marked entities, plus (recursive) everything reachable
     let mut expect_set: BTreeSet<usize> = (0..spec.n).filter(|i| spec.marked & (1 << i) != 0).collect();
@@ -546,10 +582,10 @@ fn c14(cli: &Cli) -> ! {
                         // identity permutation / RON: also with caller-chosen ids (incl. the nil uuid and
                         // non-monotone simple ids) and with a source whose entities await maintain on
                         // recycled indices
-                        let variants: &[(bool, bool)] = if perm.iter().enumerate().all(|(i, x)| i == *x) { &[(false, false), (true, false), (false, true), (true, true)] } else { &[(false, false)] };
-                        for (explicit_ids, deferred_src) in variants {
+                        let variants: &[(bool, bool, bool)] = if perm.iter().enumerate().all(|(i, x)| i == *x) { &[(false, false, false), (true, false, false), (false, true, false), (true, true, false), (false, false, true)] } else { &[(false, false, false)] };
+                        for (explicit_ids, deferred_src, src_history) in variants {
                             // recursive marking of reachable entities always uses mark()
-                            let spec = WorldSpec { n, marked: *marked, pa: *pa, pb: *pb, link: link.clone(), link2: link2.clone(), uuid, recursive, fmt, perm: perm.clone(), emptied, explicit_ids: *explicit_ids, deferred_src: *deferred_src };
+                            let spec = WorldSpec { n, marked: *marked, pa: *pa, pb: *pb, link: link.clone(), link2: link2.clone(), uuid, recursive, fmt, perm: perm.clone(), emptied, explicit_ids: *explicit_ids, deferred_src: *deferred_src, src_history: *src_history };
                             runs += 1;
                             if n_marked > 0 && link.iter().any(|l| *l > 0) {
                                 nontrivial += 1;
